@@ -184,9 +184,13 @@ def op_case(seval, args):
             return seval.eval_args(consequents)[-1]
 
         if isinstance(key, Symbol) and key.name == 'default':
-            default = seval.eval_args(consequents)[-1]
+            default = consequents
 
-    return default
+    # the default clause only runs if no other clause matched
+    if default is not None:
+        return seval.eval_args(default)[-1]
+
+    return None
 
 
 def op_do(seval, args):
